@@ -8,7 +8,7 @@ use crate::c09_mk::{self as mk, Bytes, PProof, h2, leaf_pos, node, root_expr};
 use crate::c09_util::{Label, violation};
 use mc_core::{Report, catch};
 use mithril_common::entities::{BlockRange, IntoMKTreeNode, MkSetProof};
-use mithril_merkle_tree::{MKMap, MKMapNode, MKMapProof, MKProof, MKTree, MKTreeNode, MKTreeStoreInMemory};
+use mithril_merkle_tree::{MKMap, MKMapNode, MKMapProof, MKTree, MKTreeNode, MKTreeStoreInMemory};
 use serde::{Deserialize, Serialize};
 use serde_json::{Value, json};
 
@@ -465,7 +465,7 @@ pub fn eval_proof<'a>(rep: &mut Report, w: &World, p: &PMapProof, label: impl In
             );
         }
     }
-    if !any_keyed && !label.is_honest() && rep.extras.get("mkmap_sample_accepted_mutant").is_none() {
+    if !any_keyed && !label.is_honest() && w.reference == flat(&[1, 2], 0, 0) && rep.extras.get("mkmap_sample_accepted_mutant").is_none() {
         rep.extra("mkmap_sample_accepted_mutant", json!({"made_by": label.to_string(), "structure": w.reference.describe(), "proof": p.to_json()}));
     }
     verdict
@@ -571,7 +571,7 @@ pub fn honest_sweep(reference: &RefNode) -> Report {
         if sp.verify().is_err() || sp.merkle_root() != hex::encode(&w.root) {
             bad(&mut rep, "C09/mksetproof:honest-proof-rejected", format!("MkSetProof over the requested items does not verify on {}", reference.describe()));
         }
-        if rep.samples.is_empty() && sel.len() == 2 && items.len() >= 4 {
+        if *reference == flat(&[2, 2], 0, 0) && mask == 0b0110 {
             rep.sample(json!({"part": "mkmap", "kind": "honest map proof", "structure": reference.describe(), "items": sel.iter().map(|i| String::from_utf8_lossy(i).to_string()).collect::<Vec<_>>(), "proof": p.to_json()}));
         }
     }
@@ -785,6 +785,3 @@ pub fn replay(rep: &mut Report, v: &Value) {
     let verdict = eval_proof(rep, &w, &p, v["made_by"].as_str().unwrap_or("replay"), true);
     eprintln!("replay (mkmap): verdict {verdict:?}");
 }
-
-#[allow(dead_code)]
-pub fn unused(_: &MKProof) {}
